@@ -37,6 +37,8 @@ impl SourceSet {
 
     pub fn clear_sources(&mut self, subscriber: &AnySubscriber) {
         for source in self.take() {
+            #[cfg(leptos_verif)]
+            crate::verif_yield("sources:remove_sub");
             source.remove_subscriber(subscriber);
         }
     }
